@@ -237,3 +237,27 @@ PROPS["C16"] = dict(run=tables.tables_run(["render", "httppost"], "HTTP renderin
 TEXT["C16"] = _t("GET through the real Service.ServeHTTP for every resource graph of a bounded family (root: all models with two keys - one needing JSON escaping - and collections up to two long over {primitive, data value, soft reference, reference to each of three resources}; second level models/collections/error; third level models incl. a back reference, or error), for both API encodings: the body must be well-formed JSON whose tree equals spec/fn/HttpRender.tla's recursive expansion (path-based cycle cut, soft references and cycles as href only, data unwrapped, errors in place). POST verbatim / 204 for null / Location for resource responses, HEAD = GET status and headers.",
                  "exhaustive graph table through the real HTTP handler checked by TLC against spec/fn/HttpRender.tla",
                  note="Three resources, fixed apiPath /api/; keys limited to two (one with a quote). JSON well-formedness beyond this key/value alphabet is not covered.")
+
+
+def nats_model(ctx):
+    import os, shutil
+    from .common import SPEC, tlc, tlc_stats, MachineryError
+    d = os.path.join(ctx.workdir, "nats-mc")
+    os.makedirs(d, exist_ok=True)
+    shutil.copy(os.path.join(SPEC, "NatsAdapter.tla"), d)
+    with open(os.path.join(d, "NatsAdapter.cfg"), "w") as f:
+        f.write("SPECIFICATION Spec\nCONSTANTS MaxMsgs = %d\nINVARIANTS AtMostOnce PendIffNone NoTimerAfterDone CanComplete\nPROPERTIES ExactlyOnce\nCHECK_DEADLOCK FALSE\n" % (4 if ctx.tier == "quick" else 6))
+    p = tlc("NatsAdapter.tla", d, [], timeout=900, workers=4)
+    if "No error has been found" not in p.stdout:
+        raise MachineryError("NatsAdapter.tla does not satisfy its own properties (model bug):\n" + p.stdout[-2000:])
+    g, dist = tlc_stats(p.stdout)
+    cov = dict(states=dist, transitions=g, traces_validated_against_impl=0, evaluations=1, distinct_nontrivial=dist,
+               samples=[{"model": "spec/NatsAdapter.tla: AtMostOnce, PendIffNone, CanComplete, ExactlyOnce under weak fairness"}],
+               rule="exhaustive TLC on the per-request state machine of the adapter", exhaustive=True)
+    return dict(coverage=cov, violations=[], level="model_checking", assumptions=[])
+
+
+PROPS["C18"] = dict(run=tables.combine(nats_model, tables.tables_run(["adapter"], "NATS adapter")))
+TEXT["C18"] = _t("spec/NatsAdapter.tla (listener take vs timeout take under the client lock, pre-responses restarting a still-stoppable timer) is model-checked exhaustively: at most one completion, exactly one eventually. The real nats.Client is run against an in-process NATS text-protocol server (harness/natsx) with scripted reply behaviours (none, one, two, late, racing the deadline, pre-response then reply or silence, malformed pre-response, 503 no-responders), 60 concurrent requests per round, event messages with an Unsubscribe, a server disconnect, and a sweep of subject / namespace lengths across the control-line limit with the real server's acceptance rule; TLC checks every recorded completion list against the contract.",
+                 "TLC exhaustive on NatsAdapter.tla + recorded completions of the real adapter against an in-process NATS server checked by TLC (spec/fn/AdapterCheck.tla)",
+                 note="Real time with 60 ms timeouts; replies within 25 ms of a deadline may complete either way. The mini server implements only what the adapter uses (INFO/CONNECT/PING/SUB/UNSUB/PUB/MSG/HMSG) and the real server's control-line rule (argument length > 4096 closes the connection, taken from nats-server v2.6.6 parser.go).")
